@@ -7,27 +7,33 @@ KEEP_FIRST = 0
 
 TRUSTED = [
     "Lean 4 kernel; axioms of every theorem audited (propext, Classical.choice, Quot.sound at most)",
-    "translator translate/cxx2lean_c09.py (clang++-14 typed JSON AST -> Lean: equals if-chain, six integer getters, setter table); "
-    "its output is ALSO run against the real functions by the h_c09 correspondence of this run, so a translator bug shows as a diff",
+    "translator translate/cxx2lean_c09.py (clang++-14 typed JSON AST -> Lean: the whole equals if-chain, all 17 getters, "
+    "compatibleForCopying, toString, setter table; token-structure readers for the withParameter overloads / explicit methods of both "
+    "call classes, hasInputParameter, the setData overloads, the 24 integer return-value readers); its output is ALSO run against "
+    "the real functions by the h_c09 correspondence of this run, so a translator bug shows as a diff",
     "clang++-14's AST (implicit conversions) agrees with the g++ build on LP64 (checked by the same correspondence)",
     "hand-written callee models in lean/CppUModel/Model/MockValue.lean (SimpleString(const char*) ==, MemCmp, doubles_equal class "
-    "logic, comparator call, the StringFrom/HexStringFrom/StringFromBinary renderings) and the hand-written list / repository / "
-    "name / setObjectPointer model in Model/MockNamedValueList.lean: tied to the code by the h_c09 correspondence and by the "
-    "shape checks of translate/c09_shapes.py (55 function bodies; a changed body is reported like a broken obligation)",
+    "logic, comparator call, the StringFrom/HexStringFrom/StringFromBinary renderings), the hand-written list / repository / "
+    "name / setObjectPointer model in Model/MockNamedValueList.lean and the re-written-object / data-store model in "
+    "Model/MockData.lean: tied to the code by the h_c09 correspondence and by shape checks (translate/c09_shapes.py: 55 function "
+    "bodies; retrieveDataFromStore / getData / hasData; a changed body is reported like a broken obligation)",
     "libc: printf %d/%u/%ld/%lu/%lld/%llu/%x/%lx/%llx/%02X mean decimal / lower- and upper-case hexadecimal (modelled, checked by "
     "the correspondence); the %.6g rendering of a finite double and machine addresses are environment inputs of toString",
     "STRCMP_EQUAL fails the test and does not return exactly when the two strings differ (C03 area)",
-    "eqapi: the wiring of the C layer is read from C19's regenerated Gen/CMockWiring.lean (translate/extract_cmock.py, run by this "
-    "check too); that a call matches an expectation iff expected.equals(actual) for its one parameter (C08 area) is checked by "
-    "the correspondence of this run only",
-    "IEEE-754 double arithmetic of the hardware for finite operands (fabs(a-b) <= t): same hardware on both sides of the diff",
+    "eqapi / eqapix / dset: the wiring of the C layer is read from C19's regenerated Gen/CMockWiring.lean (translate/extract_cmock.py, "
+    "run by this check too); that a call matches an expectation iff hasInputParameter says so for its one parameter (C08 area) is "
+    "checked by the correspondence of this run only",
+    "IEEE-754 double arithmetic of the hardware for finite operands (fabs(a-b) <= t, symmetric in a and b): same hardware on both "
+    "sides of the diff",
 ]
 ASSUMPTIONS = [
     "LP64: int/unsigned 32 bits, long/long long 64 bits, two's complement",
-    "custom object type names differ from the 13 built-in type names (Mock.WF); otherwise equals reads an inactive union member",
+    "custom object type names differ from the 13 built-in type names (Mock.WF / Mock.MVal.Valid); otherwise equals reads an inactive "
+    "union member",
     "a memory-buffer value holds size_ readable bytes, a string value is a NUL-terminated C string or NULL (setSize() after "
     "setMemoryBuffer() with a larger size is outside the quantifier)",
-    "values are built by the public setters (the union member read is the one the setter of that type name wrote)",
+    "values are built by the public setters (the union member read is the one the LAST setter call on the object wrote); names in the "
+    "data store are C strings",
 ]
 RULE = ("all 36 ordered integer type pairs x the boundary lattice squared (exhaustive in both tiers), plus bit-pattern aliases "
         "(v, v +- 2^32, v +- 2^64 reinterpreted in the other type) of random 64-bit values; every getter on every lattice value and on "
@@ -41,7 +47,14 @@ RULE = ("all 36 ordered integer type pairs x the boundary lattice squared (exhau
         "expectation x actual, 18 x 18) with boundary / same-bits value pairs (thorough: lattice squared), the whole "
         "expect/actual/checkExpectations scenario inside a real test; getret: every lattice value of every integer type "
         "stored with andReturnValue and read back through all 24 integer readers (MockActualCall and mock() level, plain and "
-        "...OrDefault), each in a fresh test, plus the no-return-value case; distinct = distinct op lists")
+        "...OrDefault), each in a fresh test, plus the no-return-value case; eqapix: every parameter kind (bool, double with the "
+        "expectation's explicit or default tolerance, string, the three pointer kinds, memory buffer, integers) through all 3 x 3 entry "
+        "points, with value/tolerance triples on which the expectation's tolerance and the default disagree, C bools from arbitrary "
+        "non-zero ints, and mixed kinds; data: histories on the data store of mock() (setData overloads / setDataObject / C set...Data, "
+        "names re-written in place across kinds and interfaces, comparators installed and removed in between) read back through "
+        "every integer getter and compared pairwise, every lattice value of int / unsigned written over an older value; cell: one "
+        "MockNamedValue object receiving up to 8 setters (default repository switched in between) compared with a fresh value of "
+        "the last setter; distinct = distinct op lists")
 
 RANGE = {
     "int": (-2**31, 2**31 - 1), "uint": (0, 2**32 - 1),
@@ -361,6 +374,150 @@ def generate(rng, tier):
                         ops.append("eqapi %s.%s:%d %s.%s:%d" % (ea, ke, x, aa, ka, y))
     for c in chunks(ops, 48):
         out.append(("eqapi", c))
+    # 8b. every parameter kind through every typed entry point (C++ overload / explicit method / C interface, both sides):
+    #     the call matches exactly when the EXPECTATION equals the actual value; doubles: the expectation's tolerance
+    #     (explicit or the default 0.005) decides, never the actual side's
+    def xtok(api, t, expected):
+        w = t.split(":")
+        if w[0] == "bool" and api == "c" and rng.random() < 0.6:
+            t = "bool:%d" % (rng.choice([1, 2, -1, 256, -2**31, 2**31 - 1, 65536]) if w[1] == "1" else 0)
+        if w[0] == "dbl" and not expected:
+            t = "dbld:" + w[1]
+        return api + "." + t
+
+    def xplain(rng):
+        while True:
+            t = rand_nonint(rng)
+            if t.split(":")[0] not in ("obj", "cobj"):
+                return t
+    ops = []
+    tol_cases = []        # (expected value, expected tolerance, actual value): the two tolerances give different verdicts
+    for (v, t, w) in [(1.0, 1.0, 1.5), (1.0, 0.0, 1.004), (1.0, 0.001, 1.004), (100.0, 0.1, 100.05), (0.0, float("inf"), 1e300),
+                      (5.0, -1.0, 5.0), (1.0, 0.01, 1.0075), (1.0, 0.004, 1.0045), (2.0, 1e308, -1e300), (1.0, float("nan"), 1.0),
+                      (float("inf"), float("inf"), 0.0), (0.0, 0.0, float("inf")), (float("inf"), 0.0, float("inf")),
+                      (float("inf"), 1.0, float("-inf")), (float("-inf"), float("inf"), float("inf")), (1.0, 0.005, 1.005),
+                      (1.0, 0.005, 1.0050001), (1.0, 5e-324, 1.0), (-0.0, 0.0, 0.0)]:
+        tol_cases.append(("dbl:%s:%s" % (dbits(v), dbits(t)), "dbld:%s" % dbits(w)))
+    for ea in APIS:
+        for aa in APIS:
+            for (e, a) in tol_cases:
+                ops.append("eqapix %s.%s %s.%s" % (ea, e, aa, a))
+            fixed = [("bool:1", "bool:1"), ("bool:0", "bool:1"), ("bool:1", "int:1"), ("int:0", "bool:0"), ("str:6162", "str:6162"),
+                     ("str:null", "str:-"), ("str:-", "str:null"), ("str:6162", "str:616263"), ("str:61", "mem:61"), ("mem:6162", "mem:6162"),
+                     ("mem:6162", "mem:616200"), ("mem:-", "mem:-"), ("mem:00", "mem:-"), ("ptr:2", "ptr:2"), ("ptr:2", "cptr:2"),
+                     ("cptr:2", "ptr:2"), ("cptr:3", "cptr:3"), ("fptr:1", "fptr:1"), ("fptr:1", "fptr:2"), ("fptr:2", "ptr:2"),
+                     ("ptr:0", "str:null"), ("ptr:0", "ulong:0"), ("dbld:%s" % dbits(1.0), "int:1"), ("long:1", "dbld:%s" % dbits(1.0)),
+                     ("dbld:%s" % dbits(1.0), "dbld:%s" % dbits(1.0049)), ("dbld:%s" % dbits(1.0), "dbld:%s" % dbits(1.0051)),
+                     ("dbld:%s" % NAN, "dbld:%s" % NAN), ("ullong:%d" % (2**64 - 1), "llong:-1"), ("uint:7", "llong:7")]
+            for (e, a) in fixed:
+                ops.append("eqapix %s %s" % (xtok(ea, e, True), xtok(aa, a, False)))
+    for _ in range(500 if tier == "quick" else 12000):
+        e = xplain(rng)
+        y = rng.random()
+        a = same_kind_partner(rng, e) if y < 0.7 else (xplain(rng) if y < 0.9 else tok(rng.choice(INT_KINDS), rng.choice([0, 1, 2])))
+        if rng.random() < 0.1:
+            e, a = a, e
+        if a.split(":")[0] in ("obj", "cobj") or e.split(":")[0] in ("obj", "cobj"):
+            continue
+        ops.append("eqapix %s %s" % (xtok(rng.choice(APIS), e, True), xtok(rng.choice(APIS), a, False)))
+    for c in chunks(ops, 48):
+        out.append(("eqapix", c))
+    # 8c. the data store of mock(): names are re-written in place (integers over other kinds and over objects, objects over
+    #     integers, the same name through the C++ and the C interface), then read back through every integer getter / compared
+    def dtok(rng, api, types=OBJ_TYPES):
+        y = rng.random()
+        if y < 0.45:
+            k = rng.choice(["int", "uint"])
+            return tok(k, rand_int(rng, k))
+        if y < 0.55:
+            return "bool:%d" % (rng.choice([0, 1, 2, -1, 256]) if api == "c" else rng.randint(0, 1))
+        if y < 0.65:
+            return "dbld:%s" % rng.choice(DVALS)
+        if y < 0.75:
+            return "str:" + rng.choice(STRS)
+        if y < 0.87:
+            return "%s:%d" % (rng.choice(["ptr", "cptr", "fptr"]), rng.randint(0, 4))
+        return "%s:%s:%d" % (rng.choice(["obj", "cobj"]), rng.choice(types), rng.randint(0, 7))
+    DNAMES = ["61", "62", "6162", "41", "ff", "6100", "610062", "6161", "-"]
+    for _ in range(60 if tier == "quick" else 900):
+        ops, used = [], []
+        focus = [rng.choice(DNAMES) for _ in range(rng.choice([1, 2, 3]))]
+        ftypes = [rng.choice(OBJ_TYPES) for _ in range(2)]
+        if rng.random() < 0.6:
+            ops.append("dinstall %s %d" % (ftypes[0], rng.randint(1, 3)))
+        for _ in range(rng.choice([4, 10, 24])):
+            y = rng.random()
+            nm = rng.choice(focus) if rng.random() < 0.8 else rng.choice(DNAMES)
+            if y < 0.45:
+                api = rng.choice(["cpp", "c"])
+                ops.append("dset %s %s %s" % (api, nm, dtok(rng, api, ftypes if rng.random() < 0.8 else OBJ_TYPES)))
+                used.append(nm)
+            elif y < 0.72:
+                ops.append("dget %s" % (rng.choice(used) if used and rng.random() < 0.8 else nm))
+            elif y < 0.84:
+                ops.append("deq %s %s" % (rng.choice(used) if used else nm, rng.choice(used) if used and rng.random() < 0.7 else nm))
+            elif y < 0.88:
+                ops.append("dhas %s" % nm)
+            elif y < 0.94:
+                ops.append("dinstall %s %d" % (rng.choice(ftypes), rng.randint(1, 4)) if rng.random() < 0.7
+                           else "dcopier %s %d" % (rng.choice(OBJ_TYPES), rng.randint(1, 2)))
+            elif y < 0.97:
+                ops.append("dremove")
+            else:
+                ops.append("dclear")
+                used = []
+        for nm in dict.fromkeys(used):
+            ops.append("dget %s" % nm)
+        out.append(("data", ops))
+    # every lattice value of the two integer kinds of the data API over an older value of another kind, C++ and C
+    ops = []
+    for k in ("int", "uint"):
+        for v in lattice_of(k):
+            api = rng.choice(["cpp", "c"])
+            ops += ["dset %s 78 %s" % (rng.choice(["cpp", "c"]), rng.choice(["obj:CmpId:3", "str:6162", "bool:1", "uint:7", "int:-1", "ptr:2"])),
+                    "dset %s 78 %s" % (api, tok(k, v)), "dset cpp 79 int:1", "dget 78"]
+    for c in chunks(ops, 32):
+        out.append(("data", c))
+    # 8d. ONE object written several times (setter histories): what survives a later setter (size_, comparator_, copier_)
+    for _ in range(50 if tier == "quick" else 1000):
+        ops = []
+        for _ in range(rng.choice([3, 8, 16])):
+            y = rng.random()
+            if y < 0.12:
+                ops.append("rdefault %s" % rng.choice(["0", "1", "none", "none"]))
+            elif y < 0.2:
+                ops.append("rcmp %d %s %d" % (rng.randint(0, 1), rng.choice(OBJ_TYPES), rng.randint(1, 4)))
+            elif y < 0.25:
+                ops.append("rcop %d %s %d" % (rng.randint(0, 1), rng.choice(OBJ_TYPES), rng.randint(1, 2)))
+            else:
+                toks = []
+                for _ in range(rng.randint(1, 5)):
+                    z = rng.random()
+                    if z < 0.3:
+                        k = rng.choice(INT_KINDS)
+                        toks.append(tok(k, rand_int(rng, k)))
+                    elif z < 0.55:
+                        toks.append("%s:%s:%d" % (rng.choice(["obj", "cobj"]), rng.choice(OBJ_TYPES), rng.randint(0, 7)))
+                    elif z < 0.7:
+                        toks.append("mem:" + rng.choice(MEMS))
+                    else:
+                        toks.append(rand_nonint(rng))
+                    if rng.random() < 0.3 and len(toks) < 5:
+                        toks.append("def:%s" % rng.choice(["0", "1", "none", "none"]))
+                if toks[-1].startswith("def:"):
+                    toks.append("%s:%s:%d" % (rng.choice(["obj", "cobj"]), rng.choice(OBJ_TYPES), rng.randint(0, 7)))
+                ops.append("cell " + " ".join(toks))
+        out.append(("cell", ops))
+    # the comparator of an earlier object setter survives an object setter made WITHOUT a default repository
+    ops = []
+    for t1 in ("CmpId", "CmpMod3"):
+        for t2 in ("NoCmp", "Other", "CmpId", "T1"):
+            k1, k2 = rng.randint(0, 7), rng.randint(0, 7)
+            mid = rng.choice(["", " int:%d" % rng.randint(-3, 3), " mem:0102", " str:6162"])
+            ops.append("cell def:0 %s:%s:%d%s def:none %s:%s:%d" % (rng.choice(["obj", "cobj"]), t1, k1, mid, rng.choice(["obj", "cobj"]), t2, k2))
+            ops.append("eq obj:%s:%d obj:%s:%d" % (t2, k2, t2, k1))
+    ops.append("rdefault 0")
+    out.append(("cell", ops))
     # 9. return values read back through every integer reader of MockActualCall and of mock() (plain and …OrDefault)
     ops = ["getret %s %d" % (tok(k, v), rng.randint(0, 100)) for k in INT_KINDS for v in lattice_of(k)]
     ops += ["getret none %d" % d for d in (0, 1, 41, 100)]
@@ -392,6 +549,15 @@ def generate(rng, tier):
                                        "rimport 0 7", "rdefault 5", "rclear x", "getx", "dbld:12",
                                        "eqapi ovl.int:1", "eqapi foo.int:1 c.int:1", "eqapi ovl.int:4294967296 c.int:1",
                                        "eqapi c.ullong:-1 c.int:1", "eqapi c.bool:1 c.int:1", "eqapi ovl.int c.int:1",
+                                       "eqapix ovl.bool:2 ovl.bool:1", "eqapix c.bool:x c.bool:1", "eqapix ovl.dbld:12 ovl.dbld:12",
+                                       "eqapix ovl.dbld:3ff0000000000000 ovl.dbl:3ff0000000000000:3ff0000000000000",
+                                       "eqapix zz.str:61 ovl.str:61", "eqapix ovl.str:6 ovl.str:61", "eqapix ovl.obj:T1:1 ovl.obj:T1:1",
+                                       "eqapix ovl.ptr:99 ovl.ptr:1", "eqapix ovl.mem:0 c.mem:00", "eqapix ovl.int:1",
+                                       "dset cpp 61 long:1", "dset c 61 mem:00", "dset java 61 int:1", "dset cpp null int:1", "dset cpp 61 bool:2",
+                                       "dset c 61 bool:2", "dset cpp 61 obj:MockSupport:1", "dset cpp 61 obj:int:1", "dget null", "dget zz", "deq 61",
+                                       "dget 61", "deq 61 62", "dinstall T1 9", "dinstall int 1", "dcopier T1 3", "dclear now", "cell",
+                                       "cell int:1 foo:2", "cell obj:T1:1 int:99999999999", "cell int:1 mem:0102 uint:3", "cell def:none", "cell int:1 def:9 int:2",
+                                       "cell obj:CmpId:1 def:none", "cell def:1 obj:CmpId:1 def:none obj:T1:2",
                                        "getret int:1", "getret int:1 101", "getret int:4294967296 1", "getret bool:1 1", "getret none"]))
         out.append(("malformed", ops))
     return out
@@ -424,7 +590,7 @@ def nontrivial(r):
             k = _kinds(l[2:])
             if len(k) == 2 and k[0] != k[1]:
                 return True
-        if l.split()[:2][-1] in ("tostr", "compat", "getx", "lget", "rget", "rimport", "eqapi", "getret"):
+        if l.split()[:2][-1] in ("tostr", "compat", "getx", "lget", "rget", "rimport", "eqapi", "eqapix", "getret", "dget", "deq", "cell"):
             return True
     return False
 
@@ -475,6 +641,40 @@ def observe(r, rep):
             rep.count("eqapi.%s-%s.%s" % (e[0], a[0], "pass" if w[1] == "1" else "fail"))
             if int(cur[1].split(":")[1]) != int(cur[2].split(":")[1]) and (int(cur[1].split(":")[1]) - int(cur[2].split(":")[1])) % 2**32 == 0:
                 rep.count("eqapi.same_bits_different_integer")
+        elif cur[0] == "eqapix" and w[0] == "p" and len(cur) == 3:
+            e, a = cur[1].split(":"), cur[2].split(":")
+            ek, ak = e[0].split(".")[1], a[0].split(".")[1]
+            rep.count("eqapix.%s-%s.%s" % (ek, ak, "pass" if w[1] == "1" else "fail"))
+            rep.count("eqapix.entries.%s-%s" % (e[0].split(".")[0], a[0].split(".")[0]))
+            if ek == "dbl" and ak == "dbld":
+                try:
+                    v, t, x = fbits(e[1]), fbits(e[2]), fbits(a[1])
+                    own = (abs(v - x) <= t) if v == v and x == x and t == t else False
+                    dflt = (abs(v - x) <= 0.005) if v == v and x == x else False
+                    if own != dflt:
+                        rep.count("eqapix.dbl.expectation_tolerance_and_default_disagree")
+                except (ValueError, OverflowError):
+                    pass
+            if ek == "bool" and e[0].startswith("c.") and e[1] not in ("0", "1"):
+                rep.count("eqapix.c_bool_from_other_nonzero_int")
+        elif cur[0] == "dget" and w[0] in ("getIntValue", "getUnsignedIntValue", "getLongIntValue", "getUnsignedLongIntValue",
+                                            "getLongLongIntValue", "getUnsignedLongLongIntValue"):
+            rep.count("data.getter.%s" % w[1])
+        elif cur[0] == "dget" and w[0] == "cmp":
+            rep.count("data.read_%s" % ("with_stale_or_live_comparator" if w[1] != "0" else "plain"))
+        elif cur[0] == "deq" and w[0] == "r":
+            rep.count("data.equals.%s%s" % (w[1], w[2]))
+        elif cur[0] == "cell" and w[0] == "cmp" and len(cur) >= 2:
+            vals = [t for t in cur[1:] if not t.startswith("def:")]
+            last = vals[-1].split(":")[0] if vals else ""
+            if "def:none" in cur and last in ("obj", "cobj") and w[1] != "0":
+                i = max(j for j, t in enumerate(cur) if t == "def:none")
+                if not any(t.startswith("def:") for t in cur[i + 1:]):
+                    rep.count("cell.object_set_without_repository_keeps_older_comparator")
+            rep.count("cell.last_%s.comparator_%s" % ("object" if last in ("obj", "cobj") else "plain", "set" if w[1] != "0" else "none"))
+            rep.count("cell.setters_%d" % len(vals))
+        elif cur[0] == "cell" and w[0] == "size" and cur[-1].split(":")[0] != "mem" and w[1] != "0":
+            rep.count("cell.size_survives_later_setter")
         elif cur[0] == "getret" and len(w) >= 2 and "." in w[0]:
             rep.count("retreader.%s.%s" % ("orDefault" if "OrDefault" in w[0] else "plain", w[1] if cur[1] != "none" else "none_" + w[1]))
         elif cur[0] == "compat" and w[0] == "c":
@@ -483,7 +683,7 @@ def observe(r, rep):
             rep.count("list.lookup_%s" % ("miss" if w[1] == "none" else "hit"))
         elif cur[0] == "rget" and w[0] == "got":
             rep.count("repo.lookup_cmp_%s_cop_%s" % ("hit" if w[1] != "0" else "miss", "hit" if w[2] != "0" else "miss"))
-        elif cur[0] in ("ladd", "rcmp", "rcop", "rimport", "rclear", "rdefault", "name", "llist"):
+        elif cur[0] in ("ladd", "rcmp", "rcop", "rimport", "rclear", "rdefault", "name", "llist", "dset", "dhas", "dinstall"):
             pass
 
 
@@ -516,20 +716,26 @@ def signature(r):
 
 
 LEVEL_TEXT = ("Machine-checked Lean 4 theorems, for ALL values (every 32/64-bit pattern, every byte string), about a model of "
-              "MockNamedValue::equals and the six integer getters that is REGENERATED from the current source through clang's typed AST "
-              "on every run: the 36 ordered integer type pairs compare equal exactly when they denote the same integer, symmetrically; "
-              "integer vs non-integer and different non-integer types never compare equal; bool/pointer identity, string content, "
-              "buffer length+content, doubles by the left operand's tolerance with NaN equal to nothing; every integer getter returns "
-              "exactly the stored integer or fails. The generated functions and the hand-written callee models are run against the real "
+              "MockNamedValue::equals, all getters and the call site MockCheckedExpectedCall::hasInputParameter that is REGENERATED from "
+              "the current source through clang's typed AST on every run: equals IS the property's specification function on every "
+              "ordered pair of the 14 value types (equals_eq_spec): the 36 ordered integer type pairs compare equal exactly when they "
+              "denote the same integer; integer vs non-integer and different non-integer types never compare equal; bool/pointer "
+              "identity, string content, buffer length+content, doubles by the left operand's (= the expectation's) tolerance with NaN "
+              "equal to nothing; symmetry for ALL type pairs with exactly the two stated exceptions (two doubles: left tolerance; two "
+              "objects: left comparator), each with a witness; every integer getter returns exactly the stored integer or fails, also "
+              "through the 24 return-value readers and after any history of writes to the data store of mock() (whole-history "
+              "refinement: last write per name). The generated functions and the hand-written callee models are run against the real "
               "code (ASan/UBSan) on the exhaustive boundary lattice and on sampled values in every run, and the implementation's own "
               "answers are judged by an independent oracle.")
-LEVEL_NOTE = ("Also proved (same regenerated model + hand-written list/repository model): toString of integers (decimal of the "
-              "denoted integer + hex of the two's-complement pattern at the type's width), bool, string, buffer (loop = blank-separated "
-              "%02X, 128-byte cut), double classes, pointers, objects; compatibleForCopying; every setter/getter round trip; list: "
-              "first added value of a name wins; repository: latest install wins, kinds independent, import reverses the order. "
-              "Proved: all integer/type-dispatch logic of equals and the getters (over the regenerated model). Observed only "
-              "(correspondence + oracle on sampled inputs): that the callee models (StrCmp/MemCmp loops, doubles_equal class logic, "
-              "hardware double arithmetic, comparator dispatch) and the translator's reading of the AST agree with the compiled code. "
-              "Trusted: Lean kernel, clang's AST, STRCMP_EQUAL semantics, LP64.")
+LEVEL_NOTE = ("Also proved (same regenerated model + hand-written list/repository/cell/store model): every typed entry point of the "
+              "mock API, for every parameter kind and on both sides (C++ withParameter overload, explicit method, C interface: tables "
+              "regenerated from the headers/sources and from C19's Gen.CMock), stores exactly its argument under its own type; a "
+              "tolerance can only be given on the expectation and is the one used; an object written several times shows the last "
+              "setter's value while size_/comparator_/copier_ survive (stated as the code behaves); toString of every kind; "
+              "compatibleForCopying; list: first added value of a name wins; repository: latest install wins, import reverses. "
+              "Proved: all integer/type-dispatch logic and the wiring tables. Observed only (correspondence + oracle on sampled "
+              "inputs): that the callee models (StrCmp/MemCmp loops, doubles_equal class logic, hardware double arithmetic, comparator "
+              "dispatch, list and store loops) and the translator's reading of the AST agree with the compiled code; that a call matches "
+              "iff hasInputParameter says so. Trusted: Lean kernel, clang's AST, STRCMP_EQUAL semantics, LP64.")
 TECHNIQUE = ("Lean 4 proofs over BitVec (toInt/toNat + omega, no bv_decide) about a model regenerated from the clang AST "
              "(cxx2lean) + differential correspondence harness + independent specification oracle")
